@@ -1,4 +1,9 @@
 import Proofs.C03
+import Proofs.TieLJ
+import Proofs.TieLJShape
+import Proofs.TiePotential
+import Proofs.TieImages
+import Proofs.TieSite
 #print axioms PV.Proofs.C03.declared_lj_constants
 #print axioms PV.Proofs.C03.w_eval
 #print axioms PV.Proofs.C03.score_unfold
@@ -14,3 +19,23 @@ import Proofs.C03
 #print axioms PV.Proofs.C03.nrm_le_of_sq_le
 #print axioms PV.Proofs.C03.far_pairs_vanish
 #print axioms PV.Proofs.C03.box_exhausts_cutoff
+#print axioms PV.Proofs.Tie.declared_translated_lj
+#print axioms PV.Proofs.Tie.lj2_energy_tie
+#print axioms PV.Proofs.Tie.declared_translated_ljshape
+#print axioms PV.Proofs.Tie.ljshape_energy_tie
+#print axioms PV.Proofs.Tie.ljshape_radius_tie
+#print axioms PV.Proofs.Tie.declared_translated_potential
+#print axioms PV.Proofs.Tie.potential_total_shapes_tie
+#print axioms PV.Proofs.Tie.potential_relative_positions_tie
+#print axioms PV.Proofs.Tie.potential_cartesian_positions_tie
+#print axioms PV.Proofs.Tie.potential_constants_real
+#print axioms PV.Proofs.Tie.potential_score_tie
+#print axioms PV.Proofs.Tie.declared_translated_images
+#print axioms PV.Proofs.Tie.to_cartesian_point_tie
+#print axioms PV.Proofs.Tie.to_cartesian_isometry_tie
+#print axioms PV.Proofs.Tie.to_cartesian_translate_tie
+#print axioms PV.Proofs.Tie.periodic_images_tie
+#print axioms PV.Proofs.Tie.declared_translated_site
+#print axioms PV.Proofs.Tie.site_transform_tie
+#print axioms PV.Proofs.Tie.site_multiplicity_tie
+#print axioms PV.Proofs.Tie.site_positions_tie
